@@ -5,6 +5,8 @@ use compute::linalg::{Matrix, Vector};
 use compute::predict::{Kernel, RBFKernel, RQKernel};
 
 fn logu(r: &mut Rng, lo: f64, hi: f64) -> f64 { (r.uniform(lo.ln(), hi.ln())).exp() }
+/// kernel parameters: log-uniform, or (one draw in four) one of the round values people actually type (0.5, 1, 2, 3, 10), exactly
+fn param(r: &mut Rng) -> f64 { if r.coin(0.25) { *r.pick(&[0.5, 1.0, 2.0, 3.0, 10.0]) } else { logu(r, 1e-2, 1e2) } }
 fn rec<R>(f: impl FnOnce() -> R) -> (libm::Table, Result<R, String>) { libm::start(); let r = catch(f); (libm::stop(), r) }
 fn mat_out(m: &Matrix) -> Vec<f64> { let mut v = vec![m.nrows as f64, m.ncols as f64]; v.extend_from_slice(&m.data); v }
 fn points(r: &mut Rng, n: usize) -> Vec<f64> {
@@ -37,7 +39,7 @@ pub fn gen(tier: &str, seed: u64, outdir: &str) {
     let mut cs = Cases::new("C20");
     let k = if thorough { 8 } else { 1 };
     for i in 0..400 * k {
-        let (var, ls, al) = (logu(&mut r, 1e-2, 1e2), logu(&mut r, 1e-2, 1e2), logu(&mut r, 1e-2, 1e2));
+        let (var, ls, al) = (param(&mut r), param(&mut r), param(&mut r));
         let x = if i % 5 == 0 { r.small_int(20) } else { r.uniform(-1e3, 1e3) };
         let y = match i % 4 { 0 => x, 1 => x + r.uniform(-1.0, 1.0) * ls, 2 => x + r.uniform(-30.0, 30.0) * ls, _ => r.uniform(-1e3, 1e3) };
         let (t, e) = rec(|| { let kk = RBFKernel::new(var, ls); if i % 2 == 0 { kk.forward(x, y) } else { kk.forward(&x, &y) } });
@@ -47,7 +49,7 @@ pub fn gen(tier: &str, seed: u64, outdir: &str) {
     }
     let maxn = if thorough { 60 } else { 14 };
     for i in 0..60 * k {
-        let (var, ls, al) = (logu(&mut r, 1e-2, 1e2), logu(&mut r, 1e-2, 1e2), logu(&mut r, 1e-2, 1e2));
+        let (var, ls, al) = (param(&mut r), param(&mut r), param(&mut r));
         let (n, m) = (1 + r.below(maxn) as usize, 1 + r.below(maxn) as usize);
         let xs = points(&mut r, n);
         let ys = if i % 3 == 0 { xs.clone() } else { points(&mut r, m) };
@@ -94,7 +96,7 @@ pub fn oracle(tier: &str, seed: u64) -> (u64, Vec<Finding>) {
     let mut add = |out: &mut Vec<Finding>, class: &str, what: String, input: String| { if !out.iter().any(|f| f.class == class) { out.push(Finding { class: class.into(), what, input }); } };
     let iters = if thorough { 40000 } else { 4000 };
     for _ in 0..iters {
-        let (var, ls, al) = (logu(&mut r, 1e-2, 1e2), logu(&mut r, 1e-2, 1e2), logu(&mut r, 1e-2, 1e2));
+        let (var, ls, al) = (param(&mut r), param(&mut r), param(&mut r));
         let x = r.uniform(-1e3, 1e3);
         let d1 = r.uniform(0.0, 8.0) * ls; let d2 = d1 + r.uniform(0.0, 8.0) * ls;
         let ks: [(&str, Box<dyn Fn(f64, f64) -> f64>); 2] = [("rbf", Box::new(|a, b| RBFKernel::new(var, ls).forward(a, b))), ("rq", Box::new(|a, b| RQKernel::new(var, al, ls).forward(a, b)))];
@@ -116,7 +118,7 @@ pub fn oracle(tier: &str, seed: u64) -> (u64, Vec<Finding>) {
     // matrix form: shape, entry = scalar form, Gram symmetric PSD
     let sets = if thorough { 1500 } else { 200 };
     for it in 0..sets {
-        let (var, ls, al) = (logu(&mut r, 1e-2, 1e2), logu(&mut r, 1e-2, 1e2), logu(&mut r, 1e-2, 1e2));
+        let (var, ls, al) = (param(&mut r), param(&mut r), param(&mut r));
         let (n, m) = (1 + r.below(if thorough { 60 } else { 20 }) as usize, 1 + r.below(if thorough { 60 } else { 20 }) as usize);
         let scale = if it % 2 == 0 { ls } else { 1.0 };
         let xs: Vec<f64> = (0..n).map(|_| r.uniform(-4.0, 4.0) * scale).collect();
